@@ -25,6 +25,15 @@ type encoder struct {
 	obSeq   map[string]int
 	bvMode  bool
 	safeAll bool
+	// frame checking (root contract has an explicit modifies clause)
+	frameCheck bool
+	declMods   []declMod
+}
+
+// declMod is a location the root function is allowed to modify.
+type declMod struct {
+	key   string
+	idx   string // "" = whole component
 }
 
 type nameBinding struct {
@@ -83,6 +92,8 @@ type frame struct {
 	closures map[ssa.Value]*ssa.MakeClosure
 	loopOrd  map[*ssa.BasicBlock]int
 	entryArgs []Term
+	mapKV     *[2]tv
+	witness   map[string]string
 }
 
 func (e *encoder) inRepo(fn *ssa.Function) bool {
@@ -414,7 +425,7 @@ func (e *encoder) faFun(structT types.Type, field string) string {
 		e.vc.declFun(name, []string{"Int"}, "Int")
 		inv := "fainv:" + typeKey(structT) + "." + field
 		e.vc.declFun(inv, []string{"Int"}, "Int")
-		e.vc.fact(fmt.Sprintf("(forall ((x Int)) (! (and (= (%s (%s x)) x) (< (%s x) 0)) :pattern ((%s x))))", sym(inv), sym(name), sym(name), sym(name)))
+		e.vc.fact(fmt.Sprintf("(forall ((x Int)) (! (and (= (%s (%s x)) x) (< (%s x) 0) (= (rootref (%s x)) (rootref x))) :pattern ((%s x))))", sym(inv), sym(name), sym(name), sym(name), sym(name)))
 	}
 	return sym(name)
 }
@@ -582,8 +593,10 @@ func (fr *frame) store(lv *lval, val Term, st *State) {
 	vc := fr.vc()
 	switch lv.kind {
 	case lvField, lvCell:
+		fr.frameWrite(lv.key, lv.base.S, st)
 		vc.set(st, lv.key, fmt.Sprintf("(store %s %s %s)", vc.cur(st, lv.key), lv.base.S, val.S))
 	case lvStruct:
+		fr.frameWrite("", lv.base.S, st)
 		fr.storeStruct(lv.base, lv.elemT, val, st)
 	case lvElem:
 		c := fr.load(lv.container, st)
@@ -593,6 +606,7 @@ func (fr *frame) store(lv *lval, val Term, st *State) {
 	case lvSliceElem:
 		if isByte(lv.elemT) {
 			bm := vc.keyBM()
+			fr.frameWrite(bm, fmt.Sprintf("(sl_base %s)", lv.slice.S), st)
 			vc.set(st, bm, fmt.Sprintf("(store %s (sl_base %s) %s)", vc.cur(st, bm), lv.slice.S, vc.freshConst("bytes", SV).S))
 			return
 		}
@@ -692,6 +706,7 @@ func (fr *frame) havocKeys(st *State, keys []string) {
 
 func (fr *frame) havocEverything(st *State, keepGhost bool, why string) {
 	vc := fr.vc()
+	fr.frameHavoc(st, why)
 	priv := fr.allPriv()
 	olds := map[string]string{}
 	for _, p := range priv {
@@ -771,6 +786,10 @@ func (fr *frame) oblige(kind, sub, anchor string, st *State, goal string, desc s
 		pos = e.prog.Fset.Position(instrPos(fr.curBlock.Instrs[fr.curIdx])).String()
 	}
 	ob := &Obligation{Name: name, Kind: kind, Sub: sub, Guard: st.reach, Goal: goal, NFacts: len(vc.facts), Pos: pos, Desc: desc, Tags: tags, Func: shortFn(e.root), Expect: "unsat"}
+	if fr.witness != nil {
+		ob.Witness = fr.witness
+		fr.witness = nil
+	}
 	vc.obls = append(vc.obls, ob)
 	// after checking, assume it
 	vc.fact(implies(st.reach, goal))
@@ -788,4 +807,39 @@ func instrPos(ins ssa.Instruction) token.Pos {
 
 func (fr *frame) assume(st *State, f string) {
 	fr.vc().fact(implies(st.reach, f))
+}
+
+// frameWrite emits the frame obligation for a write to (key, idx): the
+// location is either allocated during this call or declared in the root
+// contract's modifies clause.
+func (fr *frame) frameWrite(key string, idx string, st *State) {
+	e := fr.enc
+	if !e.frameCheck {
+		return
+	}
+	alts := []string{fmt.Sprintf("(>= (rootref %s) hw!0)", idx)}
+	for _, d := range e.declMods {
+		if d.key != key && key != "" && d.key != "*" {
+			continue
+		}
+		if d.idx == "" {
+			alts = append(alts, "true")
+		} else {
+			alts = append(alts, eq(idx, d.idx))
+		}
+	}
+	fr.oblige("frame", "", fr.nextAnchor("write"), st, or(alts...), "write to a location that is neither fresh nor listed in modifies ("+key+")", nil)
+}
+
+// frameHavoc: an effect that cannot be attributed to declared locations.
+func (fr *frame) frameHavoc(st *State, what string) {
+	if !fr.enc.frameCheck {
+		return
+	}
+	for _, d := range fr.enc.declMods {
+		if d.key == "*" && d.idx == "" {
+			return
+		}
+	}
+	fr.oblige("frame", "", fr.nextAnchor("havoc"), st, "false", "unbounded effect ("+what+") in a function whose contract has a modifies clause", nil)
 }
